@@ -45,6 +45,9 @@ def run_proofs(rep: Report, mods: List[str], keys: List[str], replays: Dict[str,
             if r["status"] == "engine-error":
                 rep.errors.append("pyvc engine error on %s: %s" % (key, r.get("detail", "")[-600:]))
             continue
+        for vp in r["info"].get("vacuous_paths", []):
+            rep.errors.append("vacuous path (its path condition is contradictory, canary `False` proved): %s" % vp)
+        rep.extra["canaries_checked"] = rep.extra.get("canaries_checked", 0) + r["info"].get("canaries", 0)
         by_name: Dict[str, List[dict]] = {}
         for x in r["results"]:
             by_name.setdefault(x["name"], []).append(x)
@@ -97,3 +100,16 @@ def write_lock(property_id: str, rep: Report) -> None:
     lock[property_id] = {o.name: {"status": o.status, "backend": o.backend} for o in rep.obligations if o.status == "discharged"}
     with open(LOCK_FILE, "w") as f:
         json.dump(lock, f, indent=1, sort_keys=True)
+
+
+def attach_bounded_witness(rep: Report) -> None:
+    """DESIGN §3.8-3: a failed obligation without a replayable counter-model borrows the failing input that the
+    bounded contract run of the same property found (if any); otherwise it stays `no-failing-input-found`."""
+    witnesses = [v for v in rep.violations if not v.no_failing_input and "case" in v.replay]
+    if not witnesses:
+        return
+    for v in rep.violations:
+        if v.no_failing_input:
+            v.no_failing_input = False
+            v.replay = dict(v.replay, bounded_witness=witnesses[0].replay, case=witnesses[0].replay.get("case"), module=witnesses[0].replay.get("module"))
+            v.what += " | failing input from the bounded contract run: " + witnesses[0].what[:200]
